@@ -178,7 +178,7 @@ func main() {
 		vf   vectorFile
 	}
 	var cands []cand
-	seen := map[string]bool{}
+	seen := map[string]int{}
 	for _, h := range harnesses {
 		s := sums[h]
 		if s == nil {
@@ -186,10 +186,10 @@ func main() {
 		}
 		for _, v := range s.Violations {
 			key := h + "|" + v.Label
-			if seen[key] {
+			if seen[key] >= 3 {
 				continue
 			}
-			seen[key] = true
+			seen[key]++
 			vf := vectorFile{Property: prop, Harness: h, Tier: *tier, Label: v.Label, Detail: v.Detail, Vector: v.Vector}
 			b, _ := json.MarshalIndent(vf, "", " ")
 			sum := sha1.Sum(b)
@@ -245,10 +245,21 @@ func main() {
 	exit := 0
 	nviol := 0
 	var knownHit []string
+	reported := map[string]bool{}
+	labelConfirmed := map[string]bool{}
+	for _, c := range cands {
+		if confirmed[c.file] {
+			labelConfirmed[c.vf.Harness+"|"+c.vf.Label] = true
+		}
+	}
 	for _, c := range cands {
 		if !confirmed[c.file] {
 			continue
 		}
+		if reported[c.vf.Harness+"|"+c.vf.Label] {
+			continue
+		}
+		reported[c.vf.Harness+"|"+c.vf.Label] = true
 		listed := false
 		for _, k := range kf {
 			if k.Status == "known" && k.Property == prop && k.Harness == c.vf.Harness && k.Label == c.vf.Label {
@@ -264,6 +275,17 @@ func main() {
 			fmt.Printf("  harness=%s label=%s detail=%s\n", c.vf.Harness, c.vf.Label, c.vf.Detail)
 		}
 	}
+	var stillUnconfirmed []string
+	for _, u := range unconfirmed {
+		key := u
+		if i := strings.Index(u, " ("); i >= 0 {
+			key = u[:i]
+		}
+		if !labelConfirmed[key] {
+			stillUnconfirmed = append(stillUnconfirmed, u)
+		}
+	}
+	unconfirmed = stillUnconfirmed
 	for _, u := range unconfirmed {
 		fmt.Println("UNCONFIRMED (model did not reproduce natively; not reported as a violation):", u)
 	}
